@@ -33,6 +33,11 @@ REQUIRE = {
     "monitors": {"state restored after normal exit": 60, "state restored after exception in block body": 30,
                  "state restored after injected fault (call level)": 100, "state restored after abandoned generator": 6},
     "min_nontrivial": {"quick": 150, "thorough": 2000},
+    "cover": {"operation": ["ConfigLoader.mask_params", "build_amp_matrix", "build_angle_amp_matrix", "build_int_matrix", "cal_fitfractions",
+                            "factor_iteration", "fit_fractions(new)", "fit_fractions(old)", "mask_params",
+                            "nested(mask_params>temp_total_gls_one>partial_weight>vm.temp_params)", "nested(temp_params>temp_used_res>mask_params)",
+                            "partial_weight", "partial_weight_interference", "temp_config", "temp_params", "temp_params(positional)",
+                            "temp_total_gls_one", "temp_used_res", "vm.mask_params", "vm.temp_params"]},
 }
 LEVEL_TEXT = ("Fault enumeration on the real code: for every operation the inner-function calls of a clean run are counted and an exception is "
               "injected at each of them in turn (and, thorough, at every statement-start line of the operation's own code through "
